@@ -8,6 +8,7 @@ from pyvc.vals import Val
 from pyvc import prelude as P
 from pyvc import envs as E
 from pyvc.core import PyRaise
+from pyvc.loader import Unsupported
 from pyvc.check import Check, Canary, Lemma, AuditResult
 from pyvc.verify import Contract
 from checks import stdio as ST
@@ -158,6 +159,19 @@ class StdoutReader(Contract):
         I.oblige(self.name(f"reader_never_dies[{e.cls_name}]"), z3.BoolVal(e.cls_name == "CancelledError"))
 
 
+def carried_buffer(I, phase):
+    """the reader's carried-over text fragment, identified by ROLE, not by name: the one str-valued local that
+    exists when the chunk loop is entered (whatever it is called).  Remembered per path at loop entry."""
+    if phase == "entry":
+        from pyvc.interp import MaybeUnbound
+        cands = [n for n, v in I.frame.vars.items()
+                 if not n.startswith("__") and not isinstance(v, MaybeUnbound) and z3.is_expr(v)
+                 and V.ctor_name(z3.simplify(v)) == "str"]
+        I.ghost["c05_buffer_name"] = cands[0] if len(cands) == 1 else None
+    nm = I.ghost.get("c05_buffer_name")
+    return I.frame.vars.get(nm) if nm else None
+
+
 def outer_inv(I, phase):
     c = I.c05
     name = "C05._stdout_reader.chunk_loop"
@@ -168,7 +182,10 @@ def outer_inv(I, phase):
             with open("/tmp/c05_debug.log", "a") as f:
                 f.write(f"pid={os.getpid()} phase={phase} ghost={list(I.ghost)} trace={I.trace[-5:]} externs={'codecs.getincrementaldecoder' in I.ctx.extern_handlers} repo_over={list(I.ctx.repo.overrides)}\n")
         return [(f"{name}.decodes_incrementally", z3.BoolVal(False))]
-    buf = I.frame.vars.get("buffer")
+    buf = carried_buffer(I, phase)
+    if buf is None:
+        raise Unsupported("C05 proof script: no single carried text buffer found at the chunk loop (the loop invariant "
+                          "was written for a reader that carries one str fragment between chunks)")
     bt = Val.s(c.g(I, "bytes_total"))
     processed = Val.items(c.g(I, "processed"))
     dec = I.ghost["decoder"]
@@ -185,24 +202,28 @@ def outer_inv(I, phase):
 def inner_inv(I, phase):
     c = I.c05
     name = "C05._stdout_reader.line_loop"
-    lines_v = I.frame.vars.get("lines")
     i = Val.i(I.frame.vars["__i1"])
     processed = Val.items(c.g(I, "processed"))
     base = I.ghost.get("complete_lines_before_this_chunk")
-    if base is None or lines_v is None:
-        return [(f"{name}.has_context", z3.BoolVal(False))]
-    lines = Val.items(lines_v)
+    split_now = I.ghost.get("split_of_this_chunk")
+    seq = getattr(I, "loop_seq", None)
+    if base is None or split_now is None or seq is None:
+        raise Unsupported("C05 proof script: the line loop does not run over the pieces of a str.split of this chunk")
+    # the loop runs over the complete lines of this chunk's split (all but the last piece), whatever the local that
+    # holds them is called and however the slice was taken
+    lines = split_now
+    n1 = z3.Length(lines) - 1
     done = z3.Concat(base, z3.Extract(lines, 0, i))
-    out = [(f"{name}.handled_documents_follow_the_lines_in_order", processed == J(done)),
-           (f"{name}.index_in_range", z3.And(i >= 0, i <= z3.Length(lines) - 1))]
+    out = [(f"{name}.iterates_over_the_complete_lines_of_the_split", seq == z3.Extract(lines, 0, n1)),
+           (f"{name}.handled_documents_follow_the_lines_in_order", processed == J(done)),
+           (f"{name}.index_in_range", z3.And(i >= 0, i <= n1))]
     if phase in ("head",):
         # unfolding of J at the line about to be handled, and shape of split results (prelude lemmas)
         l = lines[i]
-        n1 = z3.Length(lines) - 1
         I.assume(z3.Implies(i < n1,
                             z3.And(V.is_str(l), J(z3.Concat(done, z3.Unit(l))) == z3.Concat(J(done), jl(Val.s(l))))))
         # sequence identities (theorems of the sequence theory, given as hints)
-        I.assume(z3.Implies(i < n1, z3.And(z3.Extract(lines, 0, n1)[i] == l,
+        I.assume(z3.Implies(i < n1, z3.And(z3.Extract(lines, 0, n1)[i] == l, seq[i] == l,
                                            z3.Extract(lines, 0, i + 1) == z3.Concat(z3.Extract(lines, 0, i), z3.Unit(l)))))
     return out
 
@@ -239,6 +260,7 @@ def split_lemma_hook(I, x, sep, result_seq):
     k = z3.Int("k!sp")
     I.assume(z3.ForAll([k], z3.Implies(z3.And(k >= 0, k < z3.Length(result_seq)), V.is_str(result_seq[k]))))
     I.ghost["complete_lines_before_this_chunk"] = init(spb)
+    I.ghost["split_of_this_chunk"] = result_seq
 
 
 class TrackedDecoder(DecoderEnv):
@@ -346,5 +368,9 @@ class C05(Check):
     def replay(self, name, model, rec):
         return None
 
+
+    def bounded_stand_in(self, tier, undecided):
+        from checks import native
+        return native.stand_in(['C05.'], tier, undecided)
 
 CHECK = C05()
